@@ -316,6 +316,40 @@ def genalias_job():
             "family": "genalias", "meta": {}}
 
 
+FORMNAME_SRC = """
+from __future__ import annotations
+import dataclasses, typing
+@dataclasses.dataclass
+class Span:
+    start: int
+    end: int
+@dataclasses.dataclass
+class Literal:
+    # a user class that happens to be called like a typing form (an AST model: Expr = BinOp | Literal)
+    value: typing.Union[int, str]
+    span: Span
+@dataclasses.dataclass
+class Final:
+    inner: Literal
+@dataclasses.dataclass
+class Annotated:
+    by: typing.List[Span]
+@dataclasses.dataclass
+class BinOp:
+    left: typing.Union[BinOp, Literal]
+    right: typing.Optional[Final] = None
+    notes: typing.Optional[Annotated] = None
+"""
+
+
+def formname_job():
+    """User classes NAMED like typing's special forms: they are structured classes, walked member by member."""
+    roots = ["Literal", "Final", "Annotated", "BinOp", "list[Literal]", "dict[str, typing.Optional[Literal]]", "typing.Union[Literal, Span]",
+             "tuple[Final, Annotated]"]
+    return {"prog": {"src": FORMNAME_SRC, "module": "vm_c09_formname"}, "roots": [{"ty": ["expr", e], "kind": "form-named-class"} for e in roots],
+            "family": "formname", "meta": {}}
+
+
 FWDARG_SRC = """
 from __future__ import annotations
 import dataclasses, typing
@@ -487,6 +521,7 @@ def build_jobs(ctx):
             jobs.append({"prog": inp["prog"], "roots": [inp["root"]], "family": "focus", "meta": {}})
     jobs.append(generic_job())
     jobs.append(genalias_job())
+    jobs.append(formname_job())
     jobs.append(fwdarg_job())
     jobs.append(shadow_job())
     jobs.append(redefinition_job())
